@@ -263,7 +263,9 @@ package lite
 // The pipe copies each direction into the other with nothing in between.
 //@ func pipe
 //@   props C31
-//@   at-call Copy as c2b: assert [client-to-backend] arg0 == dst && arg1 == src
+//@   at-call SetDeadline#1 as clrSrc: assert [both-deadlines-of-the-client-cleared] arg0 == src && arg1 == zero
+//@   at-call SetDeadline#2 as clrDst: assert [both-deadlines-of-the-backend-cleared] arg0 == dst && arg1 == zero
+//@   at-call Copy as c2b: assert [client-to-backend] arg0 == dst && arg1 == src && called(clrSrc) && called(clrDst)
 //@ func pipe$1
 //@   props C31
 //@   at-call Copy as b2c: assert [backend-to-client] arg0 == src && arg1 == dst
